@@ -12,9 +12,10 @@
 
 
 class Violation(Exception):
-    def __init__(self, msg, observed=None, expected=None):
+    def __init__(self, msg, observed=None, expected=None, case=None):
         Exception.__init__(self, msg)
         self.msg = msg
+        self.case = case
         self.observed = observed
         self.expected = expected
 
@@ -29,7 +30,7 @@ class Skip(Exception):
 class Law(object):
     def __init__(self, name, check, strategy=None, enumerate=None, nontrivial=None, key=None,
                  classes=None, required=(), quick=1000, thorough=20000,
-                 shards=(4, 16), rule='', exhaustive=False, shrink=True, setup=None):
+                 shards=(4, 16), rule='', exhaustive=False, shrink=True, setup=None, weight=None):
         assert (strategy is None) != (enumerate is None)
         self.name = name
         self.check = check
@@ -46,6 +47,7 @@ class Law(object):
         self.exhaustive = exhaustive
         self.shrink = shrink
         self.setup = setup
+        self.weight = weight or (lambda case: 1)
 
     def budget(self, tier):
         return self.quick if tier == 'quick' else self.thorough
